@@ -527,10 +527,13 @@ pub fn minimise<E: Engine>(engine: &E, sc: &E::Sc, sig: &str, budget: usize) -> 
     let mut cur = sc.clone();
     let mut cur_out = engine.execute(&cur);
     let mut spent = 0usize;
+    // bounded in executions and in wall-clock time (scale scenarios take a second per execution)
+    let t0 = Instant::now();
+    let wall_budget = std::env::var("VERIF_SHRINK_WALL_S").ok().and_then(|s| s.parse::<f64>().ok()).unwrap_or(40.0);
     'outer: loop {
         let cands = engine.shrink(&cur);
         for c in cands {
-            if spent >= budget {
+            if spent >= budget || t0.elapsed().as_secs_f64() > wall_budget {
                 break 'outer;
             }
             spent += 1;
